@@ -335,6 +335,8 @@ pub struct Item {
 pub enum Side {
     Inner,
     Left,
+    Right,
+    Full,
 }
 
 #[derive(Clone, Debug, PartialEq)]
@@ -369,6 +371,8 @@ pub enum FrameKind {
 #[derive(Clone, Debug, PartialEq)]
 pub enum Step {
     Select(Vec<Item>),
+    /// `select !{cols}`
+    SelectExcept(Vec<usize>),
     Derive(Vec<Item>),
     Filter(E),
     /// (descending, key)
@@ -535,6 +539,11 @@ pub fn step_frame(s: &Step, f: &Frame, prog: &Program) -> Frame {
             }
             out
         }
+        Step::SelectExcept(ex) => Frame {
+            cols: (0..f.cols.len()).filter(|i| !ex.contains(i)).map(|i| f.cols[i].clone()).collect(),
+            inputs: f.inputs.clone(),
+            open: f.open.clone(),
+        },
         Step::Derive(items) => {
             let mut out = f.clone();
             for it in items {
@@ -732,6 +741,7 @@ pub fn pr_source(src: &Source, prog: &Program, as_from: bool) -> String {
 pub fn pr_step(s: &Step, f: &Frame, prog: &Program) -> String {
     match s {
         Step::Select(items) => format!("select {}", pr_items(items, f, prog)),
+        Step::SelectExcept(ex) => format!("select !{{{}}}", ex.iter().map(|&i| f.refname(i).unwrap_or_else(|| format!("<unref {i}>"))).collect::<Vec<_>>().join(", ")),
         Step::Derive(items) => format!("derive {}", pr_items(items, f, prog)),
         Step::Filter(e) => format!("filter {}", pr_expr(e, f, prog, true)),
         Step::Sort(keys) => {
@@ -766,6 +776,8 @@ pub fn pr_step(s: &Step, f: &Frame, prog: &Program) -> String {
             let sd = match side {
                 Side::Inner => "",
                 Side::Left => "side:left ",
+                Side::Right => "side:right ",
+                Side::Full => "side:full ",
             };
             let rs = match right {
                 Source::Sub(_) => pr_source(right, prog, false),
@@ -1023,6 +1035,10 @@ impl<'a> Interp<'a> {
                 })?;
                 Ok(Rel { frame: frame_out, rows, order: rel.order })
             }
+            Step::SelectExcept(ex) => {
+                let rows = rel.rows.iter().map(|r| Row { vals: (0..r.vals.len()).filter(|i| !ex.contains(i)).map(|i| r.vals[i].clone()).collect(), keys: r.keys.clone() }).collect();
+                Ok(Rel { frame: frame_out, rows, order: rel.order })
+            }
             Step::Filter(e) => {
                 let rows = self.map_rows(&rel, None, None, |me, row, seg| {
                     Ok(if me.eval(e, row, seg)?.truth() == Some(true) { Some(row.clone()) } else { None })
@@ -1042,6 +1058,18 @@ impl<'a> Interp<'a> {
                 Ok(Rel { frame: frame_out, rows, order: Some(desc) })
             }
             Step::Take(lo, hi) => {
+                if rel.order.is_none() {
+                    // without an order the positions are interchangeable only if all rows are equal
+                    // (`group {all columns} (take 1)`, the DISTINCT idiom)
+                    let all_equal = rel.rows.windows(2).all(|w| row_eq(&w[0].vals, &w[1].vals) && w[0].vals.iter().zip(&w[1].vals).all(|(a, b)| a.is_null() == b.is_null()));
+                    if all_equal {
+                        let n = rel.rows.len() as i64;
+                        let start = (lo.unwrap_or(1) - 1).clamp(0, n);
+                        let end = hi.map(|h| h.min(n)).unwrap_or(n).max(start);
+                        return Ok(Rel { frame: frame_out, rows: rel.rows[start as usize..end as usize].to_vec(), order: None });
+                    }
+                    return und("take with no order in effect");
+                }
                 let Some(desc) = &rel.order else { return und("take with no order in effect") };
                 let rows = take_rows(&rel.rows, desc, *lo, *hi)?;
                 Ok(Rel { frame: frame_out, rows, order: rel.order })
@@ -1063,9 +1091,10 @@ impl<'a> Interp<'a> {
                     }
                 };
                 let mut rows = vec![];
+                let mut right_matched = vec![false; r.rows.len()];
                 for lrow in &rel.rows {
                     let mut matched = false;
-                    for rrow in &r.rows {
+                    for (ri, rrow) in r.rows.iter().enumerate() {
                         let mut vals = lrow.vals.clone();
                         vals.extend(rrow.vals.iter().cloned());
                         let cand = Row { vals, keys: lrow.keys.clone() };
@@ -1075,16 +1104,33 @@ impl<'a> Interp<'a> {
                         };
                         if ok {
                             matched = true;
+                            right_matched[ri] = true;
                             rows.push(cand);
                         }
                     }
-                    if !matched && *side == Side::Left {
+                    if !matched && matches!(side, Side::Left | Side::Full) {
                         let mut vals = lrow.vals.clone();
                         vals.extend(std::iter::repeat(V::Null).take(nr));
                         rows.push(Row { vals, keys: lrow.keys.clone() });
                     }
                 }
-                Ok(Rel { frame: frame_out, rows, order: rel.order })
+                // unmatched right rows (right / full joins) are padded on the left; they carry no sort key:
+                // the order in effect is no longer defined for them
+                let mut order = rel.order;
+                if matches!(side, Side::Right | Side::Full) {
+                    for (ri, rrow) in r.rows.iter().enumerate() {
+                        if !right_matched[ri] {
+                            let mut vals: Vec<V> = std::iter::repeat(V::Null).take(nl).collect();
+                            vals.extend(rrow.vals.iter().cloned());
+                            rows.push(Row { vals, keys: vec![] });
+                            order = None;
+                        }
+                    }
+                    if order.is_some() {
+                        order = None;
+                    }
+                }
+                Ok(Rel { frame: frame_out, rows, order })
             }
             Step::Aggregate(aggs) => {
                 let vals = aggregate(aggs, &rel.rows)?;
